@@ -46,6 +46,22 @@ def standard_run(ck, P, replay_cases=None):
             ck.compare(batch, impl, model, proj=getattr(P, "PROJ", None), canon=getattr(P, "CANON", None))
             for c, i in list(zip(batch, impl))[:3]:
                 samples.append({"case": c[:400], "impl": i[:400]})
+        # recorded findings that are identified by a witness input rather than a signature of the model
+        if replay_cases is None:
+            for k in ck.known:
+                if "witness_case" not in k:
+                    continue
+                got = ck.run_impl(exe, [k["witness_case"]], logger=getattr(P, "LOGGER", "stdout"), jobs=1,
+                                  env_extra=getattr(P, "ENV", None))[0]
+                if hasattr(P, "impl_view"):
+                    got = P.impl_view(k["witness_case"], got)
+                if got == k["witness_impl"]:
+                    ck.known_hits.setdefault(k["id"], k["witness_case"])
+                elif got == k.get("witness_spec"):
+                    ck.notes.append(f"finding {k['id']} no longer reproduces (the witness now yields the specified result)")
+                else:
+                    ck.violations.append({"case": k["witness_case"], "impl": got, "model": "-", "spec": k.get("witness_spec", "-"),
+                                          "signature": k["id"], "why": "the witness of a recorded finding now behaves in a third way"})
         if replay_cases is not None:
             for c, i, m in zip(cases, impl, model):
                 print(f"case: {c[:500]}\n  impl : {i[:500]}\n  model: {m[0][:500]}\n  spec : {m[1][:500]}\n  sig  : {m[2]}")
